@@ -7,7 +7,7 @@
    The model (Model/PDA.v) keeps Python's stack orientation (top = last); [abs] reverses the stack.
    Runs are on explicit fuel (one unit per loop iteration); every statement holds for every fuel. *)
 From Coq Require Import List Arith Bool.
-From AV Require Import Base.Util Spec.Lang Spec.FA Spec.PDA Model.PDA Proofs.PDA.
+From AV Require Import Base.Util Spec.Lang Spec.FA Spec.PDA Spec.PDARank Model.PDA Proofs.PDA Proofs.PDAFuel.
 Import ListNotations.
 
 (* PDAStack.replace / PDA._replace_stack_top: the first pushed symbol becomes the top, the rest of
@@ -115,6 +115,66 @@ Theorem C02_dpda_agrees_npda : forall m w f1 f2 b1 b2,
 Proof. intros m w f1 f2 b1 b2 Hs Hd. exact (dpda_agrees_npda m Hs Hd f1 f2 w b1 b2). Qed.
 Print Assumptions C02_dpda_agrees_npda.
 
+(* ---- fuel sufficiency (T2): tables whose empty-string moves cannot run forever ----
+   Decidable sufficient condition (Spec/PDARank.v): eps_ranked rank N m = every empty-string move
+   either pops without pushing, or replaces the top by ONE symbol and goes to a state of strictly
+   larger rank (ranks capped at N); symbol moves are unrestricted.  eps_shrinking m is the case
+   "every empty-string move pops without pushing" (rank constant, N = 0).  Every move then strictly
+   decreases pda_potential, so no run from the start configuration has pda_fuel_bound N m w
+   = |w| * (max_push m + 1) * (N + 1) + 2 * (N + 1) moves or more (initial stack height 1), and
+   that much fuel always suffices: the readers return and their verdict is exactly acceptance. *)
+Theorem C02_runs_bounded_for_ranked : forall rank N m w k c, eps_ranked rank N m = true ->
+  pda_moves m k (pda_start m w) c -> k < pda_fuel_bound N m w.
+Proof. exact run_length_bounded. Qed.
+Print Assumptions C02_runs_bounded_for_ranked.
+
+Theorem C02_npda_total_for_ranked : forall rank N m w fuel, eps_ranked rank N m = true ->
+  pda_fuel_bound N m w <= fuel ->
+  (npda_accepts m fuel w = Ok true \/ npda_accepts m fuel w = Ok false) /\
+  (npda_accepts m fuel w = Ok true <-> pda_accepts m w) /\
+  (npda_accepts m fuel w = Ok false <-> ~ pda_accepts m w).
+Proof.
+  intros rank N m w fuel Hr Hf. split; [exact (npda_total rank N m Hr w fuel Hf)|].
+  exact (npda_decides rank N m Hr w fuel Hf).
+Qed.
+Print Assumptions C02_npda_total_for_ranked.
+
+Theorem C02_dpda_total_for_ranked : forall rank N m w fuel, eps_ranked rank N m = true ->
+  dpda_shape m = true -> dpda_det_check m = true ->
+  pda_fuel_bound N m w <= fuel ->
+  (dpda_accepts m fuel w = Ok true \/ dpda_accepts m fuel w = Ok false) /\
+  (dpda_accepts m fuel w = Ok true <-> pda_accepts m w) /\
+  (dpda_accepts m fuel w = Ok false <-> ~ pda_accepts m w).
+Proof.
+  intros rank N m w fuel Hr Hs Hd Hf. split; [exact (dpda_total rank N m Hr Hs Hd w fuel Hf)|].
+  exact (dpda_decides rank N m Hr Hs Hd w fuel Hf).
+Qed.
+Print Assumptions C02_dpda_total_for_ranked.
+
+(* the class "every empty-string move pops without pushing", bound written out *)
+Theorem C02_npda_total_for_shrinking : forall m w fuel, eps_shrinking m = true ->
+  length w * S (max_push m) + 2 <= fuel ->
+  (npda_accepts m fuel w = Ok true \/ npda_accepts m fuel w = Ok false) /\
+  (npda_accepts m fuel w = Ok true <-> pda_accepts m w) /\
+  (npda_accepts m fuel w = Ok false <-> ~ pda_accepts m w).
+Proof.
+  intros m w fuel Hr Hf. rewrite <- fuel_bound_shrinking in Hf.
+  exact (C02_npda_total_for_ranked (fun _ => 0) 0 m w fuel Hr Hf).
+Qed.
+Print Assumptions C02_npda_total_for_shrinking.
+
+Theorem C02_dpda_total_for_shrinking : forall m w fuel, eps_shrinking m = true ->
+  dpda_shape m = true -> dpda_det_check m = true ->
+  length w * S (max_push m) + 2 <= fuel ->
+  (dpda_accepts m fuel w = Ok true \/ dpda_accepts m fuel w = Ok false) /\
+  (dpda_accepts m fuel w = Ok true <-> pda_accepts m w) /\
+  (dpda_accepts m fuel w = Ok false <-> ~ pda_accepts m w).
+Proof.
+  intros m w fuel Hr Hs Hd Hf. rewrite <- fuel_bound_shrinking in Hf.
+  exact (C02_dpda_total_for_ranked (fun _ => 0) 0 m w fuel Hr Hs Hd Hf).
+Qed.
+Print Assumptions C02_dpda_total_for_shrinking.
+
 (* ---- non-vacuity ---- *)
 (* the library's a^n b^n DPDA (states q0..q3 = 0..3, a b = 0 1, stack '0' '1' = 0 1) *)
 Definition ex_anbn : pda :=
@@ -166,4 +226,17 @@ Example C02_unrepaired_reader_refuted :
   dpda_shape m = true /\ dpda_det_check m = true /\
   dpda_accepts_unrepaired m 5 [] = Ok false /\ npda_accepts m 5 [] = Ok true /\
   dpda_accepts m 5 [] = Ok true.
+Proof. vm_compute. repeat split. Qed.
+
+(* the fuel-sufficiency hypotheses are satisfiable: the a^n b^n DPDA is ranked by its state
+   numbers (its one empty-string move q2 -> q3 keeps the height), the palindrome NPDA's
+   empty-string moves all pop; a growing empty-string loop is in neither class *)
+Example C02_ranked_examples :
+  eps_ranked (fun q => q) 3 ex_anbn = true /\ eps_shrinking ex_anbn = false /\
+  pda_fuel_bound 3 ex_anbn [0;0;1;1] = 56 /\
+  dpda_accepts ex_anbn 56 [0;0;1;1] = Ok true /\ npda_accepts ex_anbn 56 [0;1;1] = Ok false /\
+  eps_shrinking ex_pal = true /\ max_push ex_pal = 2 /\
+  npda_accepts ex_pal (4 * 3 + 2) [0;1;1;0] = Ok true /\ npda_accepts ex_pal (2 * 3 + 2) [0;1] = Ok false /\
+  (let g := mkpda [0] [0] [0] [(0, [(None, [(0, [(0, [0;0])])])])] 0 0 [] FinalState in
+   eps_ranked (fun q => q) 5 g = false /\ npda_accepts g 30 [] = Err Fuel).
 Proof. vm_compute. repeat split. Qed.
